@@ -24,7 +24,7 @@ def parse_split_specification(split_spec, size):
     rest_index = None  # remember where the 'rest' part is
     for i, part_spec in enumerate(split_spec.split('_')):
         if part_spec[-1] == "%":
-            parts.append(int(floor((int(part_spec[:-1]) / 100) * size)))
+            parts.append((int(part_spec[:-1]) * size) // 100)
         elif part_spec[-1] == "#":
             parts.append(int(part_spec[:-1]))
         elif part_spec == 'rest' and rest_index == None:
